@@ -1,10 +1,15 @@
 import PsyVerif.Model.MiniFIO
 import PsyVerif.Model.Inline
+import PsyVerif.Model.InlineIdx
 /-! Driver for C07.
 `(inline <call>)` → `(ok <stmt> <legal> <wellscoped> <stable>)` | `(refuse <reason>)`
 `(run <cstmt> (<bindings>) (<queries>))` → `((values after the program with CALLs, callee locals in `farFrame`) (values after inlineAll))`
 call   ::= `(call (localNames) (outerNames) ((name rank lo1 lo2) ...) (locals) (statics) <stmt> (<actual> ...) [nReturns lastIsReturn])`
 actual ::= `(var y)` `(elem1 a e)` `(elem2 a e e)` `(expr e)` `(sec1 a st u)` `(sec2 a st1 st2 u)` `(col a st1 j u)` `(row a i st2 u)`
+`(idxmap (<aidx> ...) (lo ...) (<expr> ...))` → `(ok <expr> ...)` | `(none)`   (`updateIdx`: `_update_actual_indices` on an element reference)
+`(assoc (<aidx> ...) (lo ...) (k ...) (<bindings>))` → `(ok n ...)` | `(none)`          (`assocElem`: Fortran's association rule)
+`(checkidx frank (<aidx> ...))` → `(ok)` | `(refuse <reason>)`                           (`checkIdx`: the array-argument checks of validate)
+aidx   ::= `(ix dlo e)` | `(sec dlo none step)` | `(sec dlo e step)`
 cstmt  ::= `(base <stmt>)` | <call> | `(fcall <call> res <stmt>)` | `(cseq c ...)` | `(cite e c c)` | `(cloop v lo hi st c)` -/
 open Proto MiniF C07
 
@@ -46,6 +51,12 @@ def parseActual : Sexp → Option Actual
   | .list [.atom "row", a, i, s2, u] => do some (.row (← a.nat?) (← parseExpr i) (← parseExpr s2) (flag u))
   | _ => none
 
+def parseAIdx : Sexp → Option AIdx
+  | .list [.atom "ix", d, e] => do some (.ix (← d.int?) (← parseExpr e))
+  | .list [.atom "sec", d, .atom "none", stp] => do some (.sec (← d.int?) none (← stp.int?))
+  | .list [.atom "sec", d, e, stp] => do some (.sec (← d.int?) (some (← parseExpr e)) (← stp.int?))
+  | _ => none
+
 def parseParam : Sexp → Option Param
   | .list [n, r, l1, l2] => do some ⟨← n.nat?, ← r.nat?, ← l1.int?, ← l2.int?⟩
   | _ => none
@@ -78,7 +89,7 @@ partial def parseC : Sexp → Option CStmt
 
 def refName : Refusal → String
   | .earlyReturn => "earlyReturn" | .static => "static" | .container => "container" | .nargs => "nargs" | .loopVarActual => "loopVarActual"
-  | .arrayExpr => "arrayExpr" | .rank => "rank" | .stride => "stride"
+  | .arrayExpr => "arrayExpr" | .unknownType => "unknownType" | .rank => "rank" | .stride => "stride"
 
 def b01 (b : Bool) : String := if b then "1" else "0"
 
@@ -110,6 +121,27 @@ def handle (s : Sexp) : String :=
     | some prog =>
       let σ := storeOf (parseBindings init)
       answer (execC farFrame prog σ) (exec (inlineAll prog) σ) (qs.items.filterMap parseLoc)
+  | .list [.atom "idxmap", as, los, ks] =>
+    match as.items.mapM parseAIdx, ks.items.mapM parseExpr with
+    | some as, some ks =>
+      match updateIdx as los.intList ks with
+      | some out => "(ok " ++ " ".intercalate (out.map showExpr) ++ ")"
+      | none => "(none)"
+    | _, _ => "bad-idxmap"
+  | .list [.atom "checkidx", frank, as] =>
+    match as.items.mapM parseAIdx, frank.nat? with
+    | some as, some fr =>
+      match checkIdx fr as with
+      | some r => s!"(refuse {refName r})"
+      | none => "(ok)"
+    | _, _ => "bad-checkidx"
+  | .list [.atom "assoc", as, los, ks, init] =>
+    match as.items.mapM parseAIdx with
+    | some as =>
+      match assocElem (storeOf (parseBindings init)) as los.intList ks.intList with
+      | some out => "(ok " ++ " ".intercalate (out.map toString) ++ ")"
+      | none => "(none)"
+    | none => "bad-assoc"
   | _ => "bad-op"
 
 def main : IO Unit := run handle
